@@ -302,6 +302,7 @@ fn open_and_observe_marked(path: &Path, tokens: &[String]) -> Obs {
             marker("begin 1 drop");
             drop(mem);
             marker("end 1 ok");
+            filehash_marker(path);
             o
         }
         Err(e) => {
@@ -1408,7 +1409,7 @@ pub fn judge(history: &[HOp], spans: &[StepSpan], k: usize, obs: &Obs, tokens: &
         }
         return Verdict {
             ok: false,
-            signature: format!("open-fails-after-crash-in-{}", inname.replace('_', "-")),
+            signature: format!("open-fails-{}-after-crash-in-{}", stage_of_error(&obs.err), inname.replace('_', "-")),
             what: format!("Memvid::open fails ({}) on the file a process crash inside `{}` leaves; acknowledged state: [{}]", obs.err, inname, acked.frames_line()),
             matched: "",
         };
@@ -1697,6 +1698,36 @@ impl Labeller {
                 }
                 e += 1;
             }
+            // a complete TOC at the very end of the file whose footer was never written (what the legacy
+            // scan of `recover_toc` finds)
+            let tail_footer = d.len() >= 56 && &d[d.len() - 56..d.len() - 48] == b"MV2FOOT!";
+            if !tail_footer {
+                let start = d.len().saturating_sub(16 * 1024);
+                if let Some((toc, off)) = memvid_core::verif_hooks::scan_range_for_toc(d, start, d.len()) {
+                    let off = off as usize;
+                    let tocb = d[off..].to_vec();
+                    let cells = self.label_toc(d, &tocb);
+                    put(&mut c, off, cells);
+                    for f in &toc.frames {
+                        let (o, n) = (f.payload_offset as usize, f.payload_length as usize);
+                        if n > 0 && o + n <= d.len() && b3raw(&d[o..o + n]) == f.checksum {
+                            let id = self.id_of(f.checksum);
+                            put(&mut c, o, Self::obj_cells(id, n));
+                        }
+                    }
+                }
+            }
+            // every sketch-track header
+            let mut e = 0usize;
+            while e + 24 <= d.len() {
+                if &d[e..e + 4] == b"MVSK" {
+                    let id = self.id_of(b3raw(&d[e..e + 24]));
+                    put(&mut c, e, Self::obj_cells(id, 24));
+                    e += 24;
+                } else {
+                    e += 1;
+                }
+            }
         }
         c
     }
@@ -1873,4 +1904,21 @@ pub fn model_line(ans: &str) -> String {
     }
     if w.first() == Some(&"ok") && w.len() >= 4 { return format!("ok {}", w[3]); }
     ans.to_string()
+}
+
+
+/// does the model's answer predict the observation?  `?` in the model's frame list (a frame that
+/// came out of a replayed log record) matches both R and E
+pub fn model_matches(model_norm: &str, impl_norm: &str) -> bool {
+    if model_norm == impl_norm { return true; }
+    let (m, r) = (model_norm.strip_prefix("ok "), impl_norm.strip_prefix("ok "));
+    match (m, r) {
+        (Some(m), Some(r)) => {
+            let (ms, rs): (Vec<&str>, Vec<&str>) = (m.split(',').collect(), r.split(',').collect());
+            ms.len() == rs.len() && ms.iter().zip(rs.iter()).all(|(a, b)| {
+                a == b || (a.ends_with(":?") && a[..a.len() - 1] == b[..b.len() - 1])
+            })
+        }
+        _ => false,
+    }
 }
